@@ -113,6 +113,8 @@ pub struct Perturb {
     pub src_mtime: Option<i64>,
     /// simulated host name
     pub host: Option<String>,
+    /// the source path is a symbolic link to a file with another base name in another directory
+    pub src_symlink: bool,
     /// number of CPUs the process may run on (affinity mask); None = all
     pub ncpu: Option<u32>,
     /// persistent per-user state: HOME, XDG_CACHE_HOME and TMPDIR point to directories that
@@ -143,6 +145,7 @@ impl Perturb {
             input_first: true,
             src_mtime: Some(1_600_000_000),
             host: None,
+            src_symlink: false,
             ncpu: None,
             persist_home: false,
             prev_run: None,
@@ -170,6 +173,7 @@ impl Perturb {
             "input_first": self.input_first,
             "src_mtime": self.src_mtime,
             "host": self.host,
+            "src_symlink": self.src_symlink,
             "ncpu": self.ncpu,
             "persist_home": self.persist_home,
             "prev_run": self.prev_run.as_ref().map(|s| s.to_json()),
@@ -204,6 +208,7 @@ impl Perturb {
         p.input_first = v["input_first"].as_bool()?;
         p.src_mtime = v["src_mtime"].as_i64();
         p.host = v["host"].as_str().map(String::from);
+        p.src_symlink = v["src_symlink"].as_bool().unwrap_or(false);
         p.ncpu = v["ncpu"].as_u64().map(|x| x as u32);
         p.persist_home = v["persist_home"].as_bool().unwrap_or(false);
         p.prev_run = if v["prev_run"].is_null() { None } else { Sibling::from_json(&v["prev_run"]) };
@@ -349,9 +354,21 @@ pub fn run_proc(ctx: &Ctx, wd: &WorkerDir, job: &Job, text: &str, p: &Perturb, c
     let c = &ctx.corpus;
     let cwd = wd.cwd(p.cwd_b);
     let name = job.name(c);
-    std::fs::write(cwd.join(&name), text).expect("write source");
+    let _ = std::fs::remove_file(cwd.join(&name));
+    let real_path = if p.src_symlink {
+        // same path on the command line, but it is a link into a content-addressed store
+        let store = cwd.join("store");
+        let _ = std::fs::create_dir_all(&store);
+        let target = store.join(format!("{:016x}.pdl", stable_hash(&text)));
+        std::fs::write(&target, text).expect("write source");
+        std::os::unix::fs::symlink(&target, cwd.join(&name)).expect("symlink source");
+        target
+    } else {
+        std::fs::write(cwd.join(&name), text).expect("write source");
+        cwd.join(&name)
+    };
     if let Some(t) = p.src_mtime {
-        if let Ok(f) = std::fs::OpenOptions::new().write(true).open(cwd.join(&name)) {
+        if let Ok(f) = std::fs::OpenOptions::new().write(true).open(&real_path) {
             let _ = f.set_modified(std::time::UNIX_EPOCH + std::time::Duration::from_secs(t.max(0) as u64));
         }
     }
@@ -534,6 +551,7 @@ pub fn draw_perturb(rng: &mut Rng, backend: Backend, ref_out: &ProcOut) -> Pertu
     if on(13) {
         p.ncpu = Some(*rng.pick(&[1u32, 2, 3, 5, 7, 11]));
     }
+    p.src_symlink = on(15);
     if on(14) {
         p.persist_home = true;
         if rng.below(2) == 0 {
@@ -645,6 +663,7 @@ fn note_enabled(p: &Perturb, st: &mut RunStats) {
     bump(&mut st.enabled, "source_mtime", (p.src_mtime != c.src_mtime) as u64);
     bump(&mut st.enabled, "hostname", p.host.is_some() as u64);
     bump(&mut st.enabled, "cpu_affinity", p.ncpu.is_some() as u64);
+    bump(&mut st.enabled, "source_path_is_a_symlink", p.src_symlink as u64);
     bump(&mut st.enabled, "persistent_home_and_tmp", p.persist_home as u64);
     bump(&mut st.enabled, "previous_run_of_a_sibling_under_the_same_name", p.prev_run.is_some() as u64);
     bump(&mut st.enabled, "short_or_eintr_write", (p.wr_rate > 0) as u64);
